@@ -207,6 +207,19 @@ CLAIMS = {
               "update). Two defects found by this check were repaired in /repo (SARSA absorbing initial state; policy at "
               "unvisited states)."),
         ref='DESIGN.md section 4 C10'),
+    'C16': dict(
+        text=("MultichainPolicyIteration.plan_on is executed on symbolic rewards over unichain, multichain, transient+absorbing and "
+              "stay-or-quit skeletons (undiscounted) and the curated skeletons (discounted), with the default and with very small "
+              "iteration caps. On every path that reports convergence z3 proves: discounted - state values equal a fresh Bellman "
+              "optimality fixed point; undiscounted - the per-state gain equals fresh unknowns (g,h) satisfying the nested "
+              "multichain optimality equations (whose g is the optimal long-run average reward); the returned policy's rows are "
+              "distributions over available actions and its exactly evaluated value / gain (fresh evaluation equations of the "
+              "concrete policy) is optimal."),
+        note=("1-3 states, 1-2 actions; transition probabilities concrete, so chain classification / rank decisions run on concrete "
+              "data; tolerances follow the planner's own tie band (np.isclose rtol 1e-5 on bias / value magnitudes): gain 1e-4, "
+              "discounted values 2*iso/(1-g); paths where the cap is hit before the first bias step (UnboundLocalError in the "
+              "repository) are counted as cut. One defect found by this check was repaired in /repo (NaN policy row)."),
+        ref='DESIGN.md section 4 C16'),
     'C17': dict(
         text=("RMAX.train_on is executed with symbolic rewards (one transition pinned to rmax), a symbolic convergence tolerance and "
               "a nondeterministic generator (all experienced histories within the bound); an event listener passed through the "
